@@ -15,7 +15,7 @@ import (
 
 type c04Mut struct {
 	// bitflip | subst | insert | delete | truncate | swap-next | replay-prev | reflect | splice |
-	// meta-payload-swap | meta-over-payload | nonce-advance-cut | nonce-advance-seals | none
+	// meta-payload-swap | meta-over-payload | nonce-advance-cut | nonce-advance-seals | le-pad-flip | none
 	Kind string `json:"kind"`
 	// nonce | meta-ct | meta-tag | pad1 | payload-ct | payload-tag | pad2 | boundary
 	Class string  `json:"class"`
@@ -267,6 +267,9 @@ func (t *c04TCP) emit(d *c04StreamDir, u *c04Unit) []byte {
 	if t.applied || m.Kind == "none" || !u.has(m.Class) || (u.Index == 0 && (m.Kind == "replay-prev" || m.Kind == "splice")) {
 		return u.Raw
 	}
+	if m.Kind == "le-pad-flip" && !(u.Seg.IsLE() && u.Seg.PayloadLen >= 16) {
+		return u.Raw // needs a low-entropy body of at least two 8-byte chunks
+	}
 	if d.seen < m.Unit {
 		d.seen++
 		return u.Raw
@@ -306,6 +309,26 @@ func (t *c04TCP) emit(d *c04StreamDir, u *c04Unit) []byte {
 			if p.Seg.PayloadLen > 0 {
 				pl, ul := p.layout(), u.layout()
 				return append(append([]byte(nil), u.Raw[:ul["meta-tag"].hi]...), p.Raw[pl["meta-tag"].hi:]...)
+			}
+		}
+		return u.Raw
+	case "le-pad-flip":
+		// one PADDING bit of a low-entropy body flipped (Param 0: in the first 8-byte chunk — "mixed padding";
+		// Param 1: in a later chunk — "non-uniform padding"). A padding bit is one whose flip makes the
+		// reference decoder reject the body (flipping a data bit never does).
+		raw := append([]byte(nil), u.Raw...)
+		lo, n := u.layout()["payload-ct"].lo, int(u.Seg.PayloadLen)
+		from, to := 0, 8
+		if m.Param != 0 {
+			from, to = 8, n
+		}
+		for off := from; off < to && off < n; off++ {
+			for bit := uint(0); bit < 8; bit++ {
+				raw[lo+off] ^= 1 << bit
+				if _, err := wire.LEDecode(raw[lo:lo+n], int(u.Seg.ExtractedLen), u.Seg.Byte1, u.Seg.LEMask, u.Seg.LERot); err != nil {
+					return raw
+				}
+				raw[lo+off] ^= 1 << bit
 			}
 		}
 		return u.Raw
